@@ -591,7 +591,7 @@ impl Runner {
         let sql = p.sql();
         let neg = sql.contains("NOT (") || sql.contains("<>");
         let zone_based = kinds.iter().any(|k| k == "ZoneMap" || k == "BloomFilter");
-        let tag = format!("{}{}{}", if kinds.is_empty() { "noindex".to_string() } else { kinds.join("+") }, if neg && !kinds.is_empty() { ":negation" } else { "" }, if !kinds.is_empty() && self.ctx.stable_row_ids { ":stable-row-ids" } else { "" }).to_string() + if !kinds.is_empty() && self.seen_col_rewrite { ":after-column-rewrite" } else { "" } + if !kinds.is_empty() && self.seen_defer_remap { ":defer-remap" } else { "" };
+        let tag = format!("{}{}{}{}", if has_not_over_in_conjunction(&p, false) { "not-over-in-conjunction:" } else { "" }, if kinds.is_empty() { "noindex".to_string() } else { kinds.join("+") }, if neg && !kinds.is_empty() { ":negation" } else { "" }, if !kinds.is_empty() && self.ctx.stable_row_ids { ":stable-row-ids" } else { "" }).to_string() + if !kinds.is_empty() && self.seen_col_rewrite { ":after-column-rewrite" } else { "" } + if !kinds.is_empty() && self.seen_defer_remap { ":defer-remap" } else { "" };
         match self.ds.count_rows(Some(p.sql())).await {
             Ok(n) if n == expect => {}
             Ok(n) => self.res.violate("C16", "O-count", &format!("count-filter-mismatch:{}", tag), self.step, format!("count_rows({})={} model={}", p.sql(), n, expect)),
@@ -786,7 +786,8 @@ impl Runner {
                         let stable = format!("{}{}{}", if self.ctx.stable_row_ids { ":stable-row-ids" } else { "" }, if self.seen_col_rewrite { ":after-column-rewrite" } else { "" }, if self.seen_defer_remap { ":defer-remap" } else { "" });
                         self.res.violate(prop, "O-index-diff", &format!("index-vs-scan:{}:{}{}", class, kinds.join("+"), stable), self.step, format!("filter `{}` kinds {:?}: with index {}", sql, kinds, diff_rows(&b, &a)));
                     } else if sorted(&b) != sorted(&expect) {
-                        self.res.violate("C16", "O-filter-model", "filter-vs-model", self.step, format!("filter `{}`: {}", sql, diff_rows(&expect, &b)));
+                        let t = if has_not_over_in_conjunction(&p, false) { "filter-vs-model:not-over-in-conjunction" } else { "filter-vs-model" };
+                        self.res.violate("C16", "O-filter-model", t, self.step, format!("filter `{}`: {}", sql, diff_rows(&expect, &b)));
                     }
                 }
                 (Err(e), Ok(_)) => self.res.violate(prop, "O-index-diff", &format!("index-error:{}:{}", kinds.join("+"), err_class(&e.to_string())), self.step, format!("filter `{}` fails only with index: {}", sql, e)),
